@@ -143,6 +143,8 @@ def c06(repo, rep):
     X.pure_ic_rule(repo, rep)
     X.nodelist_order_rule(repo, rep)
     O.r4s(repo, rep)
+    O.default_status_map_rule(repo, rep)
+    effects.r5(repo, rep, modules=("analytic",), rhs_only=True)   # a right-hand side that writes into the solver's state changes the solution
     X.shared_value_rule(repo, rep, ["analytic"])   # per-degree / per-node series are separate objects
 
 
@@ -295,10 +297,13 @@ def c16(repo, rep):
     listdict.r12(repo, rep)
     X.state_rule(repo, rep, modules=("simulation",), only_classes=("_ListDict_",))   # the candidate sets of one run are not those of the last
     # "the total rate used for the clock equals the sum of current weights"
-    with rep.keep("RATE"):
+    with rep.keep("RATE", "R11s"):
         G.rate_consistency_sir_sis(repo, rep, "Gillespie_SIR")
         G.rate_consistency_sir_sis(repo, rep, "Gillespie_SIS")
-        G.simple_contagion_rule(repo, rep)
+        G.simple_contagion_rule(repo, rep)     # R11s: the weighted lists hold exactly the enabled candidates (a stale pair inflates the total)
+    with rep.keep("R11"):
+        G.r11_sir_sis(repo, rep, "Gillespie_SIR")   # likewise for the infected / I-S lists (a zero-weight carrier must stay listed)
+        G.r11_sir_sis(repo, rep, "Gillespie_SIS")
     with rep.keep("R11c"):
         G.complex_contagion_rule(repo, rep)
 
@@ -318,11 +323,19 @@ def c18(repo, rep):
     X.state_rule(repo, rep)
     with rep.keep("HIST"):
         M.transform_history_rule(repo, rep)  # "independent of whether full data is requested": histories are rebuilt from every recorded event
+    with rep.keep("R10a", "R10b", "R10c", "R10d"):
+        M.r10(repo, rep)                     # the initial set is used as given (in the caller's order), and initially recovered
+                                             # nodes are marked whether or not full data is requested
 
 
 def c19(repo, rep):
     effects.r5(repo, rep)
     effects.r5d(repo, rep)
+    # containers handed back by the user's callbacks (delay lists, influence sets) are the user's: they may be stored on G
+    with rep.keep("H-chain"):
+        H.sis_nonmarkov_rules(repo, rep)
+    with rep.keep("R11c"):
+        G.complex_contagion_rule(repo, rep)
     X.state_rule(repo, rep)
     X.shared_value_rule(repo, rep, ["analytic"])   # per-degree / per-node series are separate objects
 
